@@ -1124,20 +1124,29 @@ func drawDPkgOpt(t *rapid.T, excl map[string]bool, focus string, single bool) dp
 				}
 			}
 		}
-		// recursion through a pointer (not for Monoid: Ptr monoid is out of the grammar; not generic)
+		// recursion through a pointer (not for Monoid: Ptr monoid is out of the grammar)
 		hasMonoid := false
 		for _, c := range s.classes {
 			if c == "Monoid" {
 				hasMonoid = true
 			}
 		}
-		if !hasMonoid && !s.plain && len(s.params) == 0 && rapid.IntRange(0, 3).Draw(t, "recursive") == 0 {
+		if !hasMonoid && !s.plain && rapid.IntRange(0, 3).Draw(t, "recursive") == 0 {
 			s.recursive = true
-			s.fields = append(s.fields, dfield{name: "next", t: dty{expr: "*" + s.name, kind: "self-pointer", caps: all, lit: func(t *rapid.T) string {
+			// a generic struct refers to itself at its own parameters: *D[TA, TB]
+			self := s.name
+			if len(s.params) > 0 {
+				var ps []string
+				for _, prm := range s.params {
+					ps = append(ps, "«"+prm+"»")
+				}
+				self += "[" + strings.Join(ps, ", ") + "]"
+			}
+			s.fields = append(s.fields, dfield{name: "next", t: dty{expr: "*" + self, kind: "self-pointer", caps: all, lit: func(t *rapid.T) string {
 				if rapid.Bool().Draw(t, "nilnext") {
 					return "nil"
 				}
-				return "&" + s.name + "{}"
+				return "&" + self + "{}"
 			}}})
 		}
 		// values: v0 random, v1 = v0 with one field changed, v2 = v0 with a suffix changed, v3 random
